@@ -104,4 +104,80 @@ theorem regIndices_eq {rs : Regs} {n : String} {l : List Nat} (h : regIndices rs
     exact ⟨o, sz, ho, hs, h.symm⟩
   · simp at h
 
+/-- an argument respects its register: an index, if present, is inside the register -/
+def Arg.inRange (rs : Regs) (a : Arg) : Prop :=
+  ∀ i, a.idx = some i → ∃ sz, regSize rs a.name = some sz ∧ i < sz
+
+theorem firstIndex_some_regSize {rs : Regs} {n : String} {o : Nat}
+    (h : firstIndex rs n = some o) : ∃ sz, regSize rs n = some sz := by
+  induction rs generalizing o with
+  | nil => simp [firstIndex] at h
+  | cons hd rest ih =>
+    obtain ⟨m, s⟩ := hd
+    rw [firstIndex_cons] at h
+    rw [regSize_cons]
+    by_cases hm : m = n
+    · exact ⟨s, by simp [hm]⟩
+    · simp [hm] at h
+      obtain ⟨a, ha, _⟩ := h
+      simpa [hm] using ih ha
+
+/-- the qubits of an in-range argument lie inside the circuit -/
+theorem argIndices_lt_total {rs : Regs} {a : Arg} {l : List Nat}
+    (h : argIndices rs a = some l) (hr : a.inRange rs) : ∀ q ∈ l, q < totalSize rs := by
+  unfold argIndices at h
+  cases hi : a.idx with
+  | some i =>
+    simp only [hi, Option.map_eq_some_iff] at h
+    obtain ⟨o, ho, rfl⟩ := h
+    obtain ⟨sz, hs, hlt⟩ := hr i hi
+    intro q hq
+    simp only [List.mem_cons, List.not_mem_nil, or_false] at hq
+    subst hq
+    exact flat_lt_total ho hs hlt
+  | none =>
+    simp only [hi] at h
+    obtain ⟨o, sz, ho, hs, rfl⟩ := regIndices_eq h
+    intro q hq
+    simp only [List.mem_map, List.mem_range] at hq
+    obtain ⟨j, hj, rfl⟩ := hq
+    have := flat_lt_total ho hs hj
+    omega
+
+/-- a list of arguments is read element-wise, in order -/
+theorem anylist_elementwise {rs : Regs} {as : List Arg} {l : List Nat}
+    (h : anylistIndices rs as = some l) :
+    ∃ ls, as.mapM (argIndices rs) = some ls ∧ l = ls.flatten := by
+  unfold anylistIndices at h
+  simp only at h
+  split at h
+  · simp at h
+  · simp only [Option.map_eq_some_iff] at h
+    obtain ⟨ls, hls, rfl⟩ := h
+    exact ⟨ls, hls, rfl⟩
+
+theorem mapM_flatten_lt {rs : Regs} (as : List Arg) (ls : List (List Nat))
+    (h : as.mapM (argIndices rs) = some ls) (hr : ∀ a ∈ as, a.inRange rs) :
+    ∀ q ∈ ls.flatten, q < totalSize rs := by
+  induction as generalizing ls with
+  | nil =>
+    simp only [List.mapM_nil, Option.pure_def, Option.some.injEq] at h
+    subst h; simp
+  | cons a as ih =>
+    simp only [List.mapM_cons, Option.pure_def, Option.bind_eq_bind, Option.bind_eq_some_iff,
+      Option.some.injEq] at h
+    obtain ⟨l, hl, ls', hls', rfl⟩ := h
+    intro q hq
+    simp only [List.flatten_cons, List.mem_append] at hq
+    rcases hq with hq | hq
+    · exact argIndices_lt_total hl (hr a (by simp)) q hq
+    · exact ih ls' hls' (fun a' ha' => hr a' (by simp [ha'])) q hq
+
+/-- all qubits of a list of in-range arguments lie inside the circuit -/
+theorem anylist_lt_total {rs : Regs} {as : List Arg} {l : List Nat}
+    (h : anylistIndices rs as = some l) (hr : ∀ a ∈ as, a.inRange rs) :
+    ∀ q ∈ l, q < totalSize rs := by
+  obtain ⟨ls, hls, rfl⟩ := anylist_elementwise h
+  exact mapM_flatten_lt as ls hls hr
+
 end BqVerif.Qasm
